@@ -232,6 +232,7 @@ def run(ck: Check):
     bad = ck.coq_eval("fac", HEADER, terms, "fac_case", "check_fac", shard=200)
     ck.run_fixed({"unaccepted_task_exception_and_the_blocks_own_both_come_out": "C09:exception-lost",
                   "wait_finished_means_completely_finished": "C09:wait-finished",
+                  "start_value_and_failed_starts": "C09:start-value",
                   "owner_left_by_baseexception_waits_for_tasks": "C09:teardown-cancelled",
                   "handler_sees_the_escaping_exception_once": "C09:handler-twice"})
     sigs, n_fail = {}, 0
